@@ -115,7 +115,11 @@ func genSpec(ch *simrt.Chooser, consistent bool) (*tls.ClientHelloSpec, string) 
 	if ch.Bool(50, "x-status") {
 		add("status", &tls.StatusRequestExtension{})
 	}
-	add("sigalgs", &tls.SignatureAlgorithmsExtension{SupportedSignatureAlgorithms: sigs[:nsig]})
+	// a TLS 1.2-only hello may legally omit signature_algorithms (RFC 5246 7.4.1.4.1: the server
+	// then assumes SHA-1 with the key's algorithm)
+	if tls13 || !ch.Bool(20, "x-no-sigalgs") {
+		add("sigalgs", &tls.SignatureAlgorithmsExtension{SupportedSignatureAlgorithms: sigs[:nsig]})
+	}
 	if ch.Bool(40, "x-sct") {
 		add("sct", &tls.SCTExtension{})
 	}
@@ -161,7 +165,16 @@ func genSpec(ch *simrt.Chooser, consistent bool) (*tls.ClientHelloSpec, string) 
 		spec.TLSVersMin = []uint16{tls.VersionTLS10, tls.VersionTLS12}[ch.Pick(2, "min12")]
 	}
 	if ch.Bool(30, "x-sigcert") {
-		add("sigalgs-cert", &tls.SignatureAlgorithmsCertExtension{SupportedSignatureAlgorithms: sigs[:nsig]})
+		// signature_algorithms_cert is a list of its own (what may sign certificates in the chain),
+		// in general different from signature_algorithms (what may sign the handshake)
+		cs := sigs[:nsig]
+		switch ch.Pick(3, "sigcert-list") {
+		case 1:
+			cs = sigs[len(sigs)-4:] // SHA-512 RSA, Ed25519 and the SHA-1 schemes only
+		case 2:
+			cs = []tls.SignatureScheme{tls.PKCS1WithSHA256, tls.PKCS1WithSHA384, tls.ECDSAWithP384AndSHA384}
+		}
+		add("sigalgs-cert", &tls.SignatureAlgorithmsCertExtension{SupportedSignatureAlgorithms: append([]tls.SignatureScheme(nil), cs...)})
 	}
 	if ch.Bool(25, "x-rsl") {
 		add("record-size-limit", &tls.FakeRecordSizeLimitExtension{Limit: uint16(0x4001 - ch.Pick(2, "rsl")*0x2000)})
